@@ -800,6 +800,15 @@ func (vc *VC) applyContract(c *Contract, d *callDesc) []string {
 	for _, ga := range c.Prologue {
 		mods[ga.Var] = true
 	}
+	// the buffer-model ghosts ($buf...) are scratch state: they need not be declared by in-module functions (the frame
+	// check skips them), so a call of any in-module function forgets them
+	if d.fn != nil && len(d.fn.Blocks) > 0 {
+		for name := range vc.P.Spec.GhostVars {
+			if strings.HasPrefix(name, "$buf") {
+				mods[name] = true
+			}
+		}
+	}
 	for _, h := range sortedKeys(mods) {
 		vc.havocCallH(h)
 	}
@@ -993,7 +1002,12 @@ func (vc *VC) siteLocals(at ssa.Instruction) func(name string) (TV, bool) {
 				}
 			}
 		}
+		first := false
+		if strings.HasPrefix(name, "0:") {
+			first, name = true, name[2:]
+		}
 		var found ssa.Value
+		var foundPos token.Pos
 		for _, blk := range vc.fn.Blocks {
 			if !blk.Dominates(b) {
 				continue
@@ -1004,7 +1018,14 @@ func (vc *VC) siteLocals(at ssa.Instruction) func(name string) (TV, bool) {
 				}
 				if dr, ok := ins.(*ssa.DebugRef); ok && !dr.IsAddr && identName(dr) == name {
 					if _, ok := vc.vals[dr.X]; ok || isConst(dr.X) {
-						found = dr.X
+						if first {
+							// the binding with the smallest source position (the variable's definition)
+							if found == nil || dr.Pos() < foundPos {
+								found, foundPos = dr.X, dr.Pos()
+							}
+						} else {
+							found = dr.X
+						}
 					}
 				}
 			}
